@@ -85,6 +85,8 @@ type gInfo struct {
 	sess int
 	kind string
 	idle bool
+	held []Ev // what the goroutine holds now (kept even when the event log is full)
+	want *Ev  // the Lock it is inside, if any
 }
 
 type Logger struct {
@@ -139,11 +141,29 @@ func (l *Logger) Hook(op string, owner interface{}, mu interface{}, field, site 
 		l.gate(l, &e)
 	}
 	l.mu.Lock()
-	if gi := l.ginfo[g]; gi != nil {
-		e.Sess, e.Kind = gi.sess, gi.kind
+	gi := l.ginfo[g]
+	if gi == nil {
+		gi = &gInfo{}
+		l.ginfo[g] = gi
 	}
+	e.Sess, e.Kind = gi.sess, gi.kind
 	l.seq++
 	e.Seq = l.seq
+	switch op {
+	case "want", "rwant":
+		w := e
+		gi.want = &w
+	case "acq", "racq":
+		gi.want = nil
+		gi.held = append(gi.held, e)
+	case "rel", "rrel":
+		for j := len(gi.held) - 1; j >= 0; j-- {
+			if gi.held[j].Mu == e.Mu {
+				gi.held = append(gi.held[:j:j], gi.held[j+1:]...)
+				break
+			}
+		}
+	}
 	if l.maxEvs == 0 || len(l.evs) < l.maxEvs {
 		l.evs = append(l.evs, e)
 	} else {
@@ -163,6 +183,23 @@ func (l *Logger) Snapshot() []Ev {
 	defer l.mu.Unlock()
 	out := make([]Ev, len(l.evs))
 	copy(out, l.evs)
+	return out
+}
+
+// Holding returns, for every goroutine of session sess that is inside a Lock
+// call, what it waits for and what it holds.
+func (l *Logger) Holding(sess int) map[int64]gInfo {
+	l.mu.Lock()
+	defer l.mu.Unlock()
+	out := map[int64]gInfo{}
+	for g, gi := range l.ginfo {
+		if gi.sess == sess && gi.want != nil {
+			c := gInfo{sess: gi.sess, kind: gi.kind, held: append([]Ev(nil), gi.held...)}
+			w := *gi.want
+			c.want = &w
+			out[g] = c
+		}
+	}
 	return out
 }
 
